@@ -729,4 +729,77 @@ theorem run_prios (hI : Lawful I) (ops : List (Op E M V)) (ts : List (Tree T)) (
         simp only at h1 h2
         rw [h1]; exact h2
 
+/-! ### monotone priorities: the Cartesian tree is a path (wave 3, seeded C16_m10)
+
+The measured half of C16 (`height ≤ c·log n`) is a statement about the priorities of the nodes that END UP in one
+treap, in sequence order — by `history_shape` nothing else matters. If that subsequence of the thread's draws is
+strictly monotone (a priority source that is a low-discrepancy counter hash, read with the right stride) the treap is
+a path: its height is its size. -/
+
+/-- strictly increasing priorities: every new leftmost element becomes the root -/
+theorem cartShape_increasing (ps : List Nat) (h : ps.Pairwise (· < ·)) :
+    height (cartShape ps) = ps.length ∧ ∀ p, (∀ q ∈ ps, p < q) → rootGt p (cartShape ps) := by
+  induction ps with
+  | nil => exact ⟨rfl, fun _ _ => trivial⟩
+  | cons p0 ps ih =>
+    obtain ⟨hlt, hps⟩ := List.pairwise_cons.1 h
+    obtain ⟨hh, hroot⟩ := ih hps
+    have hr := hroot p0 hlt
+    simp only [cartShape]
+    cases ht : cartShape ps with
+    | nil =>
+      rw [ht] at hh
+      simp only [height] at hh
+      refine ⟨?_, ?_⟩
+      · simp only [consLeft, height, List.length_cons]; omega
+      · intro p hp
+        simp only [consLeft, rootGt]
+        exact hp p0 (List.mem_cons_self ..)
+    | node u q l r =>
+      rw [ht] at hh hr
+      simp only [rootGt] at hr
+      refine ⟨?_, ?_⟩
+      · simp only [consLeft, if_pos hr, height, List.length_cons] at hh ⊢
+        omega
+      · intro p hp
+        simp only [consLeft, if_pos hr, rootGt]
+        exact hp p0 (List.mem_cons_self ..)
+
+/-- a left spine all of whose priorities are below `b` -/
+def LSpineLt (b : Nat) : Tree Unit → Prop
+  | .nil => True
+  | .node _ q l r => q < b ∧ r = .nil ∧ LSpineLt b l
+
+theorem consLeft_lspine (b : Nat) (t : Tree Unit) (h : LSpineLt b t) :
+    height (consLeft b t) = height t + 1 ∧ ∀ b', b < b' → LSpineLt b' (consLeft b t) := by
+  induction t with
+  | nil => exact ⟨by simp [consLeft, height], fun b' hb => ⟨hb, rfl, trivial⟩⟩
+  | node u q l r ihl _ =>
+    obtain ⟨hq, hr, hl⟩ := h
+    subst hr
+    obtain ⟨h1, h2⟩ := ihl hl
+    have hn : ¬ b < q := by omega
+    refine ⟨?_, ?_⟩
+    · simp only [consLeft, if_neg hn, height] at h1 ⊢
+      omega
+    · intro b' hb
+      simp only [consLeft, if_neg hn]
+      exact ⟨by omega, rfl, h2 b' hb⟩
+
+/-- strictly decreasing priorities: every new leftmost element goes to the bottom of a left spine -/
+theorem cartShape_decreasing (ps : List Nat) (h : ps.Pairwise (· > ·)) :
+    height (cartShape ps) = ps.length ∧ ∀ b, (∀ q ∈ ps, q < b) → LSpineLt b (cartShape ps) := by
+  induction ps with
+  | nil => exact ⟨rfl, fun _ _ => trivial⟩
+  | cons p0 ps ih =>
+    obtain ⟨hgt, hps⟩ := List.pairwise_cons.1 h
+    obtain ⟨hh, hsp⟩ := ih hps
+    have hs := hsp p0 (fun q hq => hgt q hq)
+    obtain ⟨h1, h2⟩ := consLeft_lspine p0 (cartShape ps) hs
+    refine ⟨?_, ?_⟩
+    · simp only [cartShape, List.length_cons]
+      omega
+    · intro b hb
+      exact h2 b (hb p0 (List.mem_cons_self ..))
+
 end Rlib.Treap
